@@ -2,6 +2,7 @@ import Pycoin.Proofs.ChainNoErr
 import Pycoin.Proofs.ChainSpec
 import Pycoin.Model.ChainFinderOld
 import Pycoin.Spec.Chain
+import Pycoin.Proofs.ChainSplit
 /-!
 C15 — Header-chain tracking reports a heaviest chain whatever the arrival order.
 Property theorems (core Lean only).  Histories are arbitrary lists of `add_headers` / `lock_to_index`
@@ -139,10 +140,11 @@ theorem C15_spec_chain_is_model_chain (D : List Hdr) (pl w : Dict Nat)
   intro x hx
   simp at hx; subst hx; exact ha
 
-/-- **C15_heaviest_over_spec**, against `Spec.Chain`: after every history, no chain of the specification descending
-from the current anchor is heavier than the reported unlocked chain — for every set `D` of delivered headers that the
-finder and `weight_lookup` currently record (partial in this respect only: that the dicts record *all* unlocked
-delivered headers of a forest is checked by the differential runs, `c15inv`, not proved). -/
+/-- **C15_heaviest_over_spec_partial**, against `Spec.Chain`: after every history, no chain of the specification
+descending from the current anchor is heavier than the reported unlocked chain — for every set `D` of delivered headers
+that the finder and `weight_lookup` currently record.  Kept as it was; the hypothesis about `D` is discharged by
+`C15_dicts_record_delivered` (the dicts record exactly the delivered headers that are not locked), and
+`C15_heaviest_over_spec` below is the statement over ALL delivered headers, with no such hypothesis. -/
 theorem C15_heaviest_over_spec_partial (anchor0 : Nat) (rev : Bool) (steps : List Step) (obs : List Obs) (bc' : BC)
     (hav : ∀ s ∈ steps, s.avoids anchor0)
     (hr : runHist rev (BC.new anchor0) steps = .ok (obs, bc'))
@@ -157,6 +159,201 @@ theorem C15_heaviest_over_spec_partial (anchor0 : Nat) (rev : Bool) (steps : Lis
     UpPath.last_unregistered _ hpath bc'.parentHash (by simp)
   obtain ⟨u, e⟩ := C15_spec_chain_is_model_chain D _ _ hD _ sc hsc hanchor
   rw [e]; exact hmax _ u
+
+
+/-! ## what the dicts record: Delivered(history) without Locked(history) -/
+
+/-- **C15_dicts_record_delivered**.  After every history, with `delivered steps` the headers of all `add_headers`
+batches so far and `lockedOf obs` the items handed to `did_lock_to_index_f` so far:
+`_locked_chain` is `lockedOf obs`, a chain of delivered headers from the first anchor;
+`parent_lookup` has an entry for a hash only if it is not locked and a delivered header has that hash and parent;
+`weight_lookup` has an entry only for the hash and weight of a delivered header;
+every delivered header whose hash is not locked has an entry in both — whatever happened in between: duplicates
+(registered once), re-delivery of a locked header (skipped by the generator of `add_headers`), orphans, and side
+branches below the lock point (`lock_to_index` re-registers every tree of the old finder except the newly locked
+hashes; such branches stay recorded, their top is a locked hash or the first anchor, which have no entry, so no
+chain from the current anchor reaches them).  `weight_lookup` is never pruned. -/
+theorem C15_dicts_record_delivered (anchor0 : Nat) (rev : Bool) (steps : List Step) (obs : List Obs) (bc' : BC)
+    (hav : ∀ s ∈ steps, s.avoids anchor0)
+    (hr : runHist rev (BC.new anchor0) steps = .ok (obs, bc')) :
+    (∀ h p, dget bc'.finder.parent h = some p →
+      h ∉ lockedHashes bc' ∧ ∃ hd ∈ delivered steps, hd.hash = h ∧ hd.parent = p) ∧
+    (∀ h w, dget bc'.weight h = some w → ∃ hd ∈ delivered steps, hd.hash = h ∧ hd.weight = w) ∧
+    (∀ hd ∈ delivered steps, hd.hash ∉ lockedHashes bc' →
+      dhas bc'.finder.parent hd.hash = true ∧ dhas bc'.weight hd.hash = true) ∧
+    bc'.locked = lockedOf obs ∧ ItemsFrom (delivered steps) anchor0 bc'.locked := by
+  obtain ⟨c', f, r, hlk, _, _⟩ := run_rec anchor0 rev steps (BC.new anchor0) bc' [] obs [] (Full.init anchor0)
+    (Rec.init anchor0) hav hr
+  simp only [List.nil_append] at r
+  refine ⟨fun h p hp => ⟨?_, r.parentSound h p hp⟩, r.weightSound,
+    fun hd hm hnl => ⟨r.parentCompl hd hm hnl, r.weightCompl hd hm hnl⟩, by simpa [BC.new] using hlk, r.items⟩
+  intro hl
+  have := f.good.lockedUnreg h hl
+  rw [hp] at this; cases this
+
+/-- **C15_dicts_record_delivered_exact**: when a hash names one header (`Consistent`: duplicates are identical),
+the entries are the headers themselves: `parent_lookup[h] = p` exactly when `h` is not locked and a delivered header
+has hash `h` and parent `p`; every delivered unlocked header is recorded with its own parent and weight; every
+locked item is `(hash, parent, weight)` of a delivered header. -/
+theorem C15_dicts_record_delivered_exact (anchor0 : Nat) (rev : Bool) (steps : List Step) (obs : List Obs) (bc' : BC)
+    (hav : ∀ s ∈ steps, s.avoids anchor0) (hc : Consistent (deliveredSpec steps))
+    (hr : runHist rev (BC.new anchor0) steps = .ok (obs, bc')) :
+    (∀ h p, dget bc'.finder.parent h = some p ↔
+      h ∉ lockedHashes bc' ∧ ∃ hd ∈ deliveredSpec steps, hd.hash = h ∧ hd.parent = p) ∧
+    (∀ hd ∈ deliveredSpec steps, hd.hash ∉ lockedHashes bc' →
+      dget bc'.finder.parent hd.hash = some hd.parent ∧ dget bc'.weight hd.hash = some hd.weight) ∧
+    (∀ it ∈ lockedOf obs, ∃ hd ∈ deliveredSpec steps, it = (hd.hash, hd.parent, some hd.weight)) := by
+  obtain ⟨c', f, r, hlk, _, _⟩ := run_rec anchor0 rev steps (BC.new anchor0) bc' [] obs [] (Full.init anchor0)
+    (Rec.init anchor0) hav hr
+  simp only [List.nil_append] at r
+  have rc := r.toC hc
+  refine ⟨?_, rc.unlocked, ?_⟩
+  · intro h p
+    constructor
+    · intro hp
+      refine ⟨?_, ?_⟩
+      · intro hl
+        have := f.good.lockedUnreg h hl
+        rw [hp] at this; cases this
+      · obtain ⟨hd, hm, e1, e2⟩ := r.parentSound h p hp
+        exact ⟨hd.toHdr, List.mem_map.mpr ⟨hd, hm, rfl⟩, e1, e2⟩
+    · rintro ⟨hnl, hd, hm, rfl, rfl⟩
+      exact (rc.unlocked hd hm hnl).1
+  · intro it hit
+    have hit' : it ∈ bc'.locked := by rw [hlk]; simpa [BC.new] using hit
+    obtain ⟨w, e, hm⟩ := rc.item it hit'
+    refine ⟨_, hm, ?_⟩
+    obtain ⟨a, b, c⟩ := it
+    simp only at e; subst e; rfl
+
+/-! ## the reported chain against the specification over ALL delivered headers -/
+
+/-- **C15_heaviest_over_spec** (full).  After every history over headers in which a hash names one header, the
+reported chain splits into the locked part `lockedC` (the items handed to `did_lock_to_index_f`) and the unlocked part
+`unlockedC` (the cache, read from the anchor upwards) such that, over `deliveredSpec steps` — ALL headers delivered so
+far, nothing assumed about what the dicts hold —
+* the whole reported chain is a chain of the specification from the first anchor (every element delivered, every
+  parent field the hash before it), and the returned ops replay to it from the empty list;
+* the current anchor is the last locked hash (the first anchor when nothing is locked);
+* the unlocked part is a maximum-total-weight chain of the specification from the current anchor. -/
+theorem C15_heaviest_over_spec (anchor0 : Nat) (rev : Bool) (steps : List Step) (obs : List Obs) (bc' : BC)
+    (hav : ∀ s ∈ steps, s.avoids anchor0) (hc : Consistent (deliveredSpec steps))
+    (hr : runHist rev (BC.new anchor0) steps = .ok (obs, bc')) :
+    ∃ lockedC unlockedC : List Hdr,
+      lockedC.map (·.hash) = (lockedOf obs).map (·.1) ∧
+      bc'.parentHash = ((lockedC.map (·.hash)).getLast?).getD anchor0 ∧
+      curChain bc' (unlockedC.map (·.hash)).reverse ∧
+      replay (allOps obs) [] = some ((lockedC ++ unlockedC).map (·.hash)) ∧
+      IsChainFrom (deliveredSpec steps) anchor0 (lockedC ++ unlockedC) ∧
+      IsHeaviestFrom (deliveredSpec steps) bc'.parentHash unlockedC := by
+  obtain ⟨c', f, r, hlk, hrep, _⟩ := run_rec anchor0 rev steps (BC.new anchor0) bc' [] obs [] (Full.init anchor0)
+    (Rec.init anchor0) hav hr
+  simp only [List.nil_append] at r
+  obtain ⟨lockedC, unlockedC, h1, h2, h3, h4, _⟩ := state_final rev f r hc
+  have hlk' : bc'.locked = lockedOf obs := by simpa [BC.new] using hlk
+  refine ⟨lockedC, unlockedC, by rw [h1, lockedHashes, hlk'], by rw [h1]; exact f.good.parentIs, ?_, ?_, h3, h4⟩
+  · rw [h2, List.reverse_reverse]; exact f.good.cur
+  · rw [List.map_append, h1, h2]
+    simpa [lockedHashes, BC.new] using hrep
+
+/-- **C15_heaviest_extending_locked**: the same maximality read from the FIRST anchor — among the chains of the
+specification from the first anchor, over all delivered headers, that start with the locked prefix, none is heavier
+than the reported chain. -/
+theorem C15_heaviest_extending_locked (anchor0 : Nat) (rev : Bool) (steps : List Step) (obs : List Obs) (bc' : BC)
+    (hav : ∀ s ∈ steps, s.avoids anchor0) (hc : Consistent (deliveredSpec steps))
+    (hr : runHist rev (BC.new anchor0) steps = .ok (obs, bc')) :
+    ∃ reported : List Hdr, IsChainFrom (deliveredSpec steps) anchor0 reported ∧
+      replay (allOps obs) [] = some (reported.map (·.hash)) ∧
+      ∀ sc, IsChainFrom (deliveredSpec steps) anchor0 sc →
+        (sc.map (·.hash)).take (lockedOf obs).length = (lockedOf obs).map (·.1) →
+        totalWeight sc ≤ totalWeight reported := by
+  obtain ⟨lockedC, unlockedC, h1, h2, _, h4, h5, h6⟩ := C15_heaviest_over_spec anchor0 rev steps obs bc' hav hc hr
+  refine ⟨lockedC ++ unlockedC, h5, h4, ?_⟩
+  intro sc hsc hpre
+  have hlen : lockedC.length = (lockedOf obs).length := by
+    have := congrArg List.length h1
+    simpa using this
+  refine heaviest_extending hc anchor0 lockedC unlockedC h5 ?_ sc hsc (by rw [hlen, h1]; exact hpre)
+  rw [← h2]; exact h6.2
+
+/-- **C15_heaviest_no_lock**: a history of deliveries only (no `lock_to_index`): the reported chain is a
+maximum-total-weight chain of the specification from the anchor among all delivered headers. -/
+theorem C15_heaviest_no_lock (anchor0 : Nat) (rev : Bool) (steps : List Step) (obs : List Obs) (bc' : BC)
+    (hav : ∀ s ∈ steps, s.avoids anchor0) (hc : Consistent (deliveredSpec steps))
+    (hadd : ∀ s ∈ steps, s.isAdd = true)
+    (hr : runHist rev (BC.new anchor0) steps = .ok (obs, bc')) :
+    ∃ reported : List Hdr, replay (allOps obs) [] = some (reported.map (·.hash)) ∧
+      IsHeaviestFrom (deliveredSpec steps) anchor0 reported := by
+  obtain ⟨lockedC, unlockedC, h1, h2, _, h4, _, h6⟩ := C15_heaviest_over_spec anchor0 rev steps obs bc' hav hc hr
+  have hnil := runHist_no_lock rev steps _ _ _ hadd hr
+  rw [hnil] at h1
+  have hl : lockedC = [] := by simpa using h1
+  subst hl
+  simp only [List.map_nil, List.getLast?_nil, Option.getD_none] at h2
+  rw [h2] at h6
+  exact ⟨unlockedC, by simpa using h4, h6⟩
+
+/-! ## every lookup, every field -/
+
+/-- **C15_lookups_over_spec**.  After every history there is one chain `sc` of the specification from the first anchor
+over the delivered headers — the chain the returned ops replay to — such that `length()` is its length; for every
+`i < length()`: `tuple_for_index(i)` is `(hash, parent, weight)` of `sc[i]` (locked or not), `hash_for_index(i)` its
+hash, the same through the negative index `i - length()`, `index_for_hash` of its hash is `i` and `is_hash_known`
+is true; for every hash not on the chain `index_for_hash` is `None` and `is_hash_known` false;
+`last_block_hash()` (as written, through `hash_for_index(-1)`) is the last hash, the anchor when the chain is empty;
+`locked_length()` is the number of items handed to `did_lock_to_index_f`, `unlocked_length()` the rest. -/
+theorem C15_lookups_over_spec (anchor0 : Nat) (rev : Bool) (steps : List Step) (obs : List Obs) (bc' : BC)
+    (hav : ∀ s ∈ steps, s.avoids anchor0) (hc : Consistent (deliveredSpec steps))
+    (hr : runHist rev (BC.new anchor0) steps = .ok (obs, bc')) :
+    ∃ sc : List Hdr, IsChainFrom (deliveredSpec steps) anchor0 sc ∧
+      replay (allOps obs) [] = some (sc.map (·.hash)) ∧ bc'.length rev = .ok sc.length ∧
+      (∀ i (hi : i < sc.length),
+        bc'.tupleForIndex rev i = .ok (sc[i].hash, sc[i].parent, some sc[i].weight) ∧
+        bc'.hashForIndex rev i = .ok sc[i].hash ∧
+        bc'.tupleForIndexI rev ((i : Int) - sc.length) = .ok (sc[i].hash, sc[i].parent, some sc[i].weight) ∧
+        bc'.hashForIndexI rev ((i : Int) - sc.length) = .ok sc[i].hash ∧
+        bc'.indexForHash sc[i].hash = some (i : Int) ∧ bc'.isHashKnown sc[i].hash = true) ∧
+      (∀ h, h ∉ sc.map (·.hash) → bc'.indexForHash h = none ∧ bc'.isHashKnown h = false) ∧
+      bc'.lastBlockHashI rev = .ok (((sc.map (·.hash)).getLast?).getD anchor0) ∧
+      bc'.lockedLength = (lockedOf obs).length ∧
+      bc'.unlockedLength rev = .ok (sc.length - (lockedOf obs).length) := by
+  obtain ⟨c', f, r, hlk, hrep, _⟩ := run_rec anchor0 rev steps (BC.new anchor0) bc' [] obs [] (Full.init anchor0)
+    (Rec.init anchor0) hav hr
+  simp only [List.nil_append] at r
+  have g := f.good
+  obtain ⟨lockedC, unlockedC, h1, h2, h3, _, h5⟩ := state_final rev f r hc
+  have hlk' : bc'.locked = lockedOf obs := by simpa [BC.new] using hlk
+  have hL : (lockedC ++ unlockedC).map (·.hash) = lockedHashes bc' ++ c'.reverse := by rw [List.map_append, h1, h2]
+  have hlen : (lockedC ++ unlockedC).length = (lockedHashes bc' ++ c'.reverse).length := by
+    rw [← hL, List.length_map]
+  refine ⟨lockedC ++ unlockedC, h3, by rw [hL]; simpa [lockedHashes, BC.new] using hrep,
+    by rw [hlen]; exact length_good rev g, ?_, ?_, ?_, by simp [BC.lockedLength, hlk'], ?_⟩
+  · intro i hi
+    have ht := h5 i hi
+    have hneg : bc'.tupleForIndexI rev ((i : Int) - (lockedC ++ unlockedC).length) = bc'.tupleForIndex rev i := by
+      have := (tupleForIndexI_spec rev g ((i : Int) - (lockedC ++ unlockedC).length)).2 (by omega) (by rw [hlen]; omega)
+      rw [this]; congr 1; rw [hlen]; omega
+    have hget : (lockedHashes bc' ++ c'.reverse)[i]? = some (lockedC ++ unlockedC)[i].hash := by
+      rw [← hL, List.getElem?_map, List.getElem?_eq_getElem hi]; rfl
+    have hidx := (g.exact (lockedC ++ unlockedC)[i].hash (i : Int)).mpr ⟨i, rfl, hget⟩
+    refine ⟨ht, by simp [BC.hashForIndex, ht, bind, Except.bind], by rw [hneg]; exact ht,
+      by unfold BC.hashForIndexI; rw [hneg, ht]; rfl, hidx, ?_⟩
+    exact (isHashKnown_good g _).mpr (List.mem_of_getElem? hget)
+  · intro h hn
+    rw [hL] at hn
+    constructor
+    · cases hv : bc'.indexForHash h with
+      | none => rfl
+      | some i =>
+        obtain ⟨n, _, hn'⟩ := (g.exact h i).mp hv
+        exact absurd (List.mem_of_getElem? hn') hn
+    · cases hv : bc'.isHashKnown h with
+      | false => rfl
+      | true => exact absurd ((isHashKnown_good g h).mp hv) hn
+  · rw [lastBlockHashI_eq rev g, hL]
+    exact lastBlockHash_good rev g
+  · rw [unlockedLength_good rev g, hlen, ← hlk']
+    simp [lockedHashes]
 
 /-! ## the finder invariant -/
 
